@@ -28,3 +28,6 @@ import MicroHttp.Props.Tables
 #print axioms MicroHttp.Tables.client_enqueue
 #print axioms MicroHttp.Tables.no_shared_state
 #print axioms MicroHttp.Tables.no_interior_mutability
+#print axioms MicroHttp.Tables.server_new
+#print axioms MicroHttp.Tables.server_new_from_fd
+#print axioms MicroHttp.Tables.client_new
